@@ -8,7 +8,7 @@ namespace Pelite.Pe
 /-! ### moving a scan between buffers -/
 
 /-- completeness of the NUL search: the first NUL of the window is found -/
-theorem findNul_complete {b : Bytes} {off : Nat} :
+theorem findNul_finds_first {b : Bytes} {off : Nat} :
     ∀ (n i k : Nat), i ≤ k → k < i + n → byteAt b (off + k) = 0 →
       (∀ j, i ≤ j → j < k → byteAt b (off + j) ≠ 0) → findNul b off n i = some k := by
   intro n
@@ -43,11 +43,11 @@ theorem cstr_transfer {b b' : Bytes} {off off' len : Nat} {c : Ref}
     unfold cstrFromBytes
     show (match findNul b' off' (k + 1) 0 with
       | some n => some (⟨off', n + 1, 1⟩ : Ref) | none => none) = _
-    rw [findNul_complete (b := b') (off := off') (k + 1) 0 k (Nat.zero_le _) (by omega)
+    rw [findNul_finds_first (b := b') (off := off') (k + 1) 0 k (Nat.zero_le _) (by omega)
       (by rw [hb k (by simp)]; exact h3)
       (fun j _ hj => by rw [hb j (by simp; omega)]; exact h4 j (Nat.zero_le _) hj)]
 
-theorem leN_congr {b b' : Bytes} {o o' size : Nat}
+theorem leN_same_bytes {b b' : Bytes} {o o' size : Nat}
     (h : ∀ i, i < size → byteAt b' (o' + i) = byteAt b (o + i)) : leN b' o' size = leN b o size := by
   unfold leN
   split
@@ -67,7 +67,7 @@ theorem leN_congr {b b' : Bytes} {o o' size : Nat}
 
 /-- completeness of the sentinel loop: the first stopping element is found when the window holds it
 and the fuel reaches it -/
-theorem sliceFLoop_complete {b : Bytes} {off blen size : Nat} {stop : Nat → Bool} :
+theorem sliceFLoop_finds_first {b : Bytes} {off blen size : Nat} {stop : Nat → Bool} :
     ∀ (fuel len n : Nat), len ≤ n → n + 1 ≤ fuel + len → (n + 1) * size ≤ blen →
       stop (leN b (off + n * size) size) = true →
       (∀ j, len ≤ j → j < n → stop (leN b (off + j * size) size) = false) →
@@ -96,7 +96,7 @@ theorem sentinel_transfer {b b' : Bytes} {off off' blen size fuel n : Nat} {stop
   obtain ⟨-, h2, h3, h4⟩ := sliceFLoop_ok _ _ _ h
   have hcong : ∀ j, j ≤ n → leN b' (off' + j * size) size = leN b (off + j * size) size := by
     intro j hj
-    apply leN_congr
+    apply leN_same_bytes
     intro i hi
     have hm : (j + 1) * size ≤ (n + 1) * size := Nat.mul_le_mul_right _ (by omega)
     rw [Nat.succ_mul] at hm
@@ -104,7 +104,7 @@ theorem sentinel_transfer {b b' : Bytes} {off off' blen size fuel n : Nat} {stop
     rw [← Nat.add_assoc, ← Nat.add_assoc] at this
     exact this
   refine ⟨?_, h2⟩
-  apply sliceFLoop_complete (n + 1) 0 n (Nat.zero_le _) (by omega) (Nat.le_refl _)
+  apply sliceFLoop_finds_first (n + 1) 0 n (Nat.zero_le _) (by omega) (Nat.le_refl _)
   · rw [hcong n (Nat.le_refl _)]; exact h3
   · intro j _ hj
     rw [hcong j (by omega)]
